@@ -251,6 +251,18 @@ PROPS["C18"] = {
     "rule": "case = one configuration x one gather cycle; distinct_nontrivial counts distinct (types, network types, port range, filters, loopback, effective mDNS, mux, #eligible, #published) classes",
     "assumptions": ["effective mDNS mode is read from the agent after construction (opportunistic mDNS may fall back to disabled)"],
 }
+PROPS["C09"] = {
+    "parts": [part("TestVerifC09", q=8, t=16, tq=900)],
+    "level": "fault_enumeration",
+    "engine": "E4 lifecycle",
+    "technique": "resource-tally monitor (every socket of the fake transport.Net, every mux handle, every TURN client / relay allocation has an identity and a close counter) asserted at the quiescent points named by the statement, over scripted lifetimes that enumerate the cut point of Restart/Close against each in-flight STUN exchange under injected faults",
+    "level_text": "Gather configurations host / host+srflx / srflx / two STUN servers reporting one mapped address (duplicate candidate) / srflx-mapped (rewrite rules) / relay with a fake TURN client / UDP mux / TCP mux / host+srflx+relay, "
+                  "1-3 cycles, cut points {reply then wait, Restart before the reply with the reply delivered afterwards, Restart with no reply, no reply (timeout), Restart at once}, final action Close / GracefulClose / Restart+Close, "
+                  "faults: n-th listen fails, TURN Listen fails, TURN Allocate fails, per-address sockets via an IP filter.",
+    "level_note": "The Failed-state release is covered by C06's 'failed' variant (candidate lists) rather than by the socket tally. Multiple Close calls on one socket are recorded, not judged (two legitimate owners race on shutdown).",
+    "rule": "case = one scripted lifetime; distinct_nontrivial counts distinct (configuration kind, #addresses, #cycles, cut sequence, final action, filter, fault) classes",
+    "assumptions": ["mDNS sockets belong to the agent's lifetime, not to a generation: judged at Close only"],
+}
 PROPS["C05"] = {
     "parts": [part("TestVerifC05", q=8, t=16, tq=900)],
     "level": "exploration",
